@@ -90,7 +90,7 @@ class Flavour:
         if r is not None and self._data[r] is obj:
             return r
         # plain strings / ints may be rebuilt (e.g. by load()): fall back to equality for immutables
-        if isinstance(obj, (str, int, tuple, Item)) and not isinstance(obj, bool):
+        if isinstance(obj, (str, int, tuple, Item, Fwd)) and not isinstance(obj, bool):
             for d in range(1, 15):  # make sure the whole alphabet exists
                 try:
                     self.data(d)
@@ -254,6 +254,32 @@ class DataclassFlavour(Flavour):
         return Item(NAMES[d - 1], d)
 
 
+@dataclasses.dataclass(frozen=True)
+class Fwd:
+    """data object whose attribute names meet names the library looks up on nodes (`kind`), used with
+    Tree(forward_attrs=True): node.<attr> is then forwarded to node.data.<attr> for attributes a node lacks"""
+    label: str
+    kind: str = "cause"
+    title: str = "t"
+
+    def __str__(self):
+        return self.label
+
+
+class FwdFlavour(Flavour):
+    def _make(self, d):
+        return Fwd(NAMES[d - 1])
+
+    def new_tree(self, name=None):
+        cls = TypedTree if self.typed else Tree
+        return cls(name, forward_attrs=True)
+
+    def kind_id(self, node):
+        if not self.typed:   # `kind` of a plain node is the forwarded data attribute, not a node kind
+            return 0 if not hasattr(type(node), "kind") else -1
+        return KIND_IDS.get(node.kind, -1)
+
+
 class DictWrapperFlavour(Flavour):
     name_sorted = False
 
@@ -321,6 +347,7 @@ def make(name, typed=False) -> Flavour:
         "intnid": IntNodeIdFlavour,
         "tuple": TupleFlavour,
         "dataclass": DataclassFlavour,
+        "fwd": FwdFlavour,
         "dictwrapper": DictWrapperFlavour,
         "keyed": KeyedFlavour,
         "callback": CallbackFlavour,
